@@ -7,7 +7,7 @@ EXTENDS ObjHeap, TLC, Json, IOUtils
 VARIABLES h, hist
 Depth == atoi(IOEnv.HEAP_DEPTH)
 Ks == IF Kind = "angle" THEN {8, -1440, 5600} ELSE {8, -24, 16000}
-K2 == IF Kind = "angle" THEN {-1440, 5600} ELSE {8, -24}
+K2 == IF Kind = "angle" THEN {-1440, 5600, 0, 16} ELSE {8, -24, 0}        \* incl. the neutral operands 0 and 1
 Ops == IF Kind = "angle" THEN {"add", "sub", "mul"} ELSE {"add", "sub"}
 Rec(t, op, dst, l, r, k) == [t |-> t, op |-> op, dst |-> dst, l |-> l, r |-> r, k |-> k]
 AllOps ==
@@ -16,7 +16,7 @@ AllOps ==
   \cup {Rec("copy", "", d, l, "", 0) : d \in Names, l \in Names}
   \cup (IF Kind = "angle" THEN {Rec("bin", op, d, l, r, 0) : op \in {"add", "sub"}, d \in {"a", "c"}, l \in Names, r \in Names} ELSE {})
   \cup {Rec("num", op, d, l, "", k) : op \in Ops, d \in {"a", "c"}, l \in {"a", "b"}, k \in K2}
-  \cup {Rec("rnum", op, d, l, "", k) : op \in (IF Kind = "angle" THEN {"sub", "mul"} ELSE {"add"}), d \in {"a", "c"}, l \in {"a", "b"}, k \in K2}
+  \cup {Rec("rnum", op, d, l, "", k) : op \in (IF Kind = "angle" THEN {"add", "sub", "mul"} ELSE {"add"}), d \in {"a", "c"}, l \in {"a", "b"}, k \in K2}
   \cup (IF Kind = "angle" THEN {Rec("inp", op, l, l, r, 0) : op \in Ops, l \in Names, r \in Names} ELSE {})
   \cup {Rec("inpnum", op, l, l, "", k) : op \in Ops, l \in Names, k \in K2}
   \cup (IF Kind = "angle" THEN {Rec(t, "", d, l, "", 0) : t \in {"neg", "abs"}, d \in {"a", "c"}, l \in {"a", "b"}} ELSE {})
